@@ -29,7 +29,8 @@ RULE = (
     "compute/plan/visualize/store of several arrays; literals: ints, floats, unit strings with spaces/fractions/exponents, huge "
     "and tiny values (realistic stratum: <= 15 significant digits and <= 1 PB; extreme stratum beyond), malformed strings; "
     "arrays that take their Spec from cubed.config: 8 config fields differing alone x both creation orders (configured value "
-    "carried by the Spec and by plan budgets, no silent mixing). "
+    "carried by the Spec and by plan budgets, no silent mixing); spec-lifetime histories per entry point x {allowed_mem, reserved_mem, work_dir}: "
+    "12 rounds of {a distinct Spec equal to the long-lived one is combined with it, dropped and garbage-collected; a differing Spec is created and combined in both orders}. "
     "Non-trivial = a mixed-spec call was judged / a well-formed non-integer-looking literal was compared; distinct by hash"
 )
 ASSUMPTIONS = [
@@ -324,6 +325,69 @@ def judge_mixing(name, fn, field, order, wd, res):
     return [{"kind": "mixed-specs-accepted", "msg": f"{name} accepted arrays whose specs differ in {field} (argument order {order})", "facts": case, "case": case}]
 
 
+def _combine_and_drop(fn, long_lived, wd, equal_kw):
+    """In its own frame, so that everything it creates is unreachable afterwards: a fresh Spec equal to the
+    long-lived one, an array under it, one legitimate combination."""
+    import cubed
+    import cubed.array_api as xp
+
+    sb = cubed.Spec(**equal_kw)
+    b = xp.asarray(np.arange(12.0).reshape(3, 4) * 3, chunks=(2, 2), spec=sb)
+    try:
+        fn(long_lived, b)
+        fn(b, long_lived)
+        return True
+    except Exception:
+        return False
+
+
+def judge_spec_lifetimes(name, fn, field, wd, res, rounds=12):
+    """History: a long-lived Spec A; repeatedly { a distinct Spec equal to A is combined with A's array (accepted),
+    dropped and collected; a Spec differing from A in one field is created - CPython tends to give it the memory of the
+    one just freed - and its array combined with A's, in both argument orders }. Every one of these must be refused:
+    what two Specs compare as may depend on their fields only, never on object identities seen earlier."""
+    import gc
+
+    import cubed
+    import cubed.array_api as xp
+
+    base = dict(work_dir=os.path.join(wd, "w"), allowed_mem="1GB", reserved_mem="10MB")
+    sa = cubed.Spec(**base)
+    a = xp.asarray(np.arange(12.0).reshape(3, 4) + 1, chunks=(2, 2), spec=sa)
+    viols = []
+    case = {"entry_point": name, "field": field, "history": "equal spec combined, dropped, differing spec created"}
+    for r in range(rounds):
+        ok = _combine_and_drop(fn, a, wd, base)
+        gc.collect()
+        if not ok:
+            res["counters"]["equal_specs_refused"] += 1
+        _, sc = spec_pair(field, wd)
+        c = xp.asarray(np.arange(12.0).reshape(3, 4) * 2, chunks=(2, 2), spec=sc)
+        for order, (x, y) in enumerate(((c, a), (a, c))):
+            res["evaluations"] += 1
+            res["counters"]["spec_lifetime_calls"] += 1
+            try:
+                with warnings.catch_warnings():
+                    warnings.simplefilter("ignore")
+                    ret = fn(x, y)
+            except ValueError as e:
+                if "same spec" in str(e):
+                    res["counters"]["rejected_explicitly"] += 1
+                continue
+            except Exception as e:
+                viols.append({"kind": "mixed-specs-crash", "msg": f"{name} (spec lifetime history, round {r}): {type(e).__name__}: {str(e)[:150]}", "facts": dict(case, exc=type(e).__name__), "case": case})
+                break
+            if name in MAY_ACCEPT and not contains_both(ret, a, c):
+                continue
+            viols.append({"kind": "mixed-specs-accepted-after-history", "msg": f"{name} accepted arrays whose specs differ in {field} (order {order}) in round {r} of: equal Spec combined with A, dropped, collected, differing Spec created", "facts": case, "case": case})
+            break
+        del c, sc
+        if viols:
+            break
+    res["nontrivial"].append(rhash(case))
+    return viols
+
+
 CONFIG_FIELDS = ["work_dir", "intermediate_store", "allowed_mem", "reserved_mem", "executor_name", "executor_options", "storage_options", "zarr_compressor"]
 
 
@@ -425,7 +489,7 @@ def shards(tier, seed):
              "watchdog_s": TIMEOUT[tier] - 30} for i in range(ns)]
 
 
-EXTRA = ("config_spec_cases", "literals", "literals_realistic", "literals_extreme", "literals_malformed", "literals_reject", "literals_accepted",
+EXTRA = ("spec_lifetime_calls", "equal_specs_refused", "config_spec_cases", "literals", "literals_realistic", "literals_extreme", "literals_malformed", "literals_reject", "literals_accepted",
          "literals_rejected", "mixed_spec_calls", "rejected_explicitly", "rejected_other_valueerror", "accepted_without_combining",
          "plan_budgets_checked", "contract_evaluations")
 
@@ -448,6 +512,12 @@ def run_shard(spec, workdir):
                     viols += judge_mixing(name, fn, field, order, os.path.join(workdir, f"m{k}"), res)
                     res["sets"]["entry_points"].append(name)
                 k += 1
+    k = 0
+    for name, fn in E.items():
+        for field in ("allowed_mem", "reserved_mem", "work_dir"):
+            if k % spec["of"] == spec["index"]:
+                viols += judge_spec_lifetimes(name, fn, field, os.path.join(workdir, f"l{k}"), res)
+            k += 1
     k = 0
     for field in CONFIG_FIELDS:
         for order in (0, 1):
@@ -498,6 +568,7 @@ def finalize(tier, merged):
             ("size literals judged against the exact parser", c.get("literals", 0), 30000 if tier == "quick" else 500000),
             ("mixed-spec calls judged (entry point x field x order)", c.get("mixed_spec_calls", 0), 600, ),
             ("config-derived spec cases (field x creation order)", c.get("config_spec_cases", 0), 16),
+            ("calls judged inside spec-lifetime histories (equal Spec combined, dropped, differing Spec created)", c.get("spec_lifetime_calls", 0), 1000),
             ("icontract evaluations on convert_to_bytes", c.get("contract_evaluations", 0), 20000 if tier == "quick" else 300000),
             ("multi-array public functions found by introspection but not in the entry-point table (must be 0)", -len(missing), 0),
         ],
